@@ -30,6 +30,34 @@ CLAIMED = {
         'runtime fact decided by value comparison.',
    technique='Coq proof of the ring kernels + exact differential testing of the operator layer (Coq model and Fraction reference)',
    design='4/C02'),
+ 'C11': dict(
+   text='Theorems (every kernel, every P, all shapes): in the model a polynomial with P directions is a list of P independent blocks; '
+        'restricting the operands of any element-wise function, broadcasting binary operation or shape manipulation to direction p and '
+        'operating gives direction p of the full result (so no information flows between directions). On every run the property is '
+        'evaluated directly on the implementation (each registered operation on the full input vs on each single direction, different base '
+        'points per direction, constants shaped like the direction axis) and the implementation is tied to the model on the restricted runs.',
+   note=NOTE_COMMON + 'Direction independence of the model is by its per-direction structure; that the implementation has this structure is '
+        'what the run checks. Matrix kernels/factorizations and the reverse sweep join the operation registry as their models are built.',
+   technique='Coq proof (per-direction structure of the model) + direct predicate on the implementation + correspondence',
+   design='4/C11'),
+ 'C12': dict(
+   text='Theorems (every field, every D, every n <= D): all recurrences are course-of-values recursions, so the first n output '
+        'coefficients equal the output computed from inputs truncated to n coefficients -- proved generically for the recursion '
+        'combinators and for each kernel (add, sub, mul, square, div, reciprocal, sqrt, real power, exp, log, sin/cos, sinh/cosh, tan, tanh, '
+        'arcsin/arccos, arctan, the derivative-convolution helper, expm1); D=1 gives the plain value. On every run the property is '
+        'evaluated directly on the implementation for every registered operation and every D\' < D.',
+   note=NOTE_COMMON + 'The reverse-sweep analogue and the eigh bookkeeping are covered by the direct predicate only once their operations are registered.',
+   technique='Coq proof (prefix lemmas for the recursion combinators and every kernel) + direct predicate on the implementation + correspondence',
+   design='4/C12'),
+ 'C14': dict(
+   text='Theorems (every field, every D): store-passing models of the product kernel with its output aliased to either or both operands, and '
+        'of the in-place product x *= y, compute the Cauchy product; the repaired x *= x is correct whether or not the operands share '
+        'memory, and the loop as it stood before the fix is refuted by a kernel-checked witness. On every run: byte-wise snapshots of every '
+        'argument around every registered operation, x op x / x op= x / x op= view(x) against independent copies (exact), the kernels '
+        'against the Coq store model (exact), and input/seed objects around recording and reverse sweeps.',
+   note=NOTE_COMMON + 'Whether a NumPy call mutates a caller buffer is a runtime fact decided by the snapshots, not by a theorem.',
+   technique='Coq proof (loop invariants of store-passing models with aliasing) + runtime snapshots + exact differential testing',
+   design='4/C14'),
  'C15': dict(
    text='Theorems (all N>=1, all d, closed under the global context): the multi-index enumeration contains every multi-index of degree d '
         'exactly once. Bounded theorem by kernel reflection over exact rationals: the interpolation identity sum_j Gamma[i,j] ray_j^a = '
